@@ -16,6 +16,7 @@ broadcast use {axiom_string_ext, axiom_str_ext, axiom_str_of, axiom_vec_ext, axi
 //@include spec/subst_lemmas.rs
 //@include spec/subst_formula_lemmas.rs
 //@include spec/subst_loop_lemmas.rs
+//@include spec/ucl_lemmas.rs
 //@include spec/induction_lemmas.rs
 //@include spec/definition_lemmas.rs
 //@include units/unbox.inc
